@@ -1,1 +1,107 @@
-(* C04 - to be filled *)
+(* C04 - ROM positions are contiguous, ordered and exclude noload data: declarative definitions.
+   The first part (which symbol a statement assigns, running a statement list through LdSem) is
+   shared by the link-level theorems of C03, C10 and the *Link files. *)
+From Slinky Require Import Model.Types Model.Runtime Model.Style Model.Script Model.Writer Model.LdSem.
+Local Open Scope string_scope.
+
+(* ---------- which symbol a statement assigns ---------- *)
+
+(* does the statement (or a statement of its body) assign the symbol [x]? *)
+Fixpoint assigns (x : string) (s : stmt) : bool :=
+  match s with
+  | SAssign _ _ _ sym _ => String.eqb sym x
+  | SAlign sym _ => String.eqb sym x
+  | SMaxSelf sym _ => String.eqb sym x
+  | SRomAdd _ => String.eqb "__romPos" x
+  | SOutSec _ _ _ _ _ body => existsb (assigns x) body
+  | SSections body => existsb (assigns x) body
+  | _ => false
+  end.
+
+(* no statement of the list assigns [x] *)
+Definition no_assign (x : string) (l : list stmt) : bool := negb (existsb (assigns x) l).
+
+(* exactly one statement of the list assigns [x] (an output section counts as one statement) *)
+Definition defined_once (x : string) (l : list stmt) : bool :=
+  Nat.eqb (List.length (filter (assigns x) l)) 1.
+
+(* ---------- executing the body of a SECTIONS block ---------- *)
+
+Definition run (env : list (string * Z)) (senv : list osec) (ext : list (string * Z)) (final : bool)
+           (l : list stmt) (st : lstate) : lstate :=
+  fold_left (exec_top_stmt env senv ext final) l st.
+
+(* the value a symbol got from the script in this pass *)
+Definition val (st : lstate) (x : string) : option Z := lookup x (l_syms st).
+
+(* ---------- shapes ---------- *)
+
+(* the output-section headers of a statement list, in order: name, address, AT symbol, NOLOAD *)
+Definition header_of (s : stmt) : list (string * option expr * option string * bool) :=
+  match s with
+  | SOutSec name addr at_ noload _ _ => [(name, addr, at_, noload)]
+  | _ => []
+  end.
+Definition headers (l : list stmt) := flat_map header_of l.
+
+(* the sections whose size is added to the ROM position, in order *)
+Definition rom_add_of (s : stmt) : list string :=
+  match s with SRomAdd sec => [sec] | _ => [] end.
+Definition rom_adds (l : list stmt) : list string := flat_map rom_add_of l.
+
+Definition included (rt : runtime) (segs : list segment) : list segment :=
+  filter (fun seg => should_emit rt (sg_conds seg)) segs.
+
+Definition alloc_name (seg : segment) : string := "." ++ sg_name seg.
+Definition noload_name (seg : segment) : string := "." ++ sg_name seg ++ ".noload".
+
+(* the two headers of a segment: only the allocatable one has an address and a load address *)
+Definition segment_headers (sty : style) (seg : segment) : list (string * option expr * option string * bool) :=
+  [(alloc_name seg, segment_addr sty seg, Some (segment_rom_start sty (sg_name seg)), false);
+   (noload_name seg, None, None, true)].
+
+Definition align_pair (a : option N) : list stmt :=
+  match a with Some n => [SAlign "__romPos" n; SAlign "." n] | None => [] end.
+
+Definition rom_align (a : option N) : list stmt :=
+  match a with Some n => [SAlign "__romPos" n] | None => [] end.
+
+(* every statement of a segment that assigns __romPos *)
+Definition segment_rom_stmts (seg : segment) : list stmt :=
+  (rom_align (segment_start_align seg) ++ [SRomAdd (alloc_name seg)] ++ rom_align (segment_end_align seg))%list.
+
+Definition rom_init : stmt := SAssign false false false "__romPos" (ERaw "0x0").
+
+(* alignment as a number: none = 1 *)
+Definition align_z (a : option N) : Z := match a with Some n => Z.of_N n | None => 1%Z end.
+
+(* ---------- the ROM symbols of one segment are not redefined ---------- *)
+
+Definition rom_names_distinct (sty : style) (name : string) (l : list stmt) : bool :=
+  defined_once (segment_rom_start sty name) l &&
+  defined_once (segment_rom_end sty name) l &&
+  defined_once (segment_rom_size sty name) l.
+
+Local Open Scope Z_scope.
+
+(* the ROM layout of a list of (emitted) segments read in the state [st'] at the end of the pass,
+   [r] being the ROM position before the first of them *)
+Fixpoint RomChain (sty : style) (st' : lstate) (r : Z) (segs : list segment) : Prop :=
+  match segs with
+  | [] => val st' "__romPos" = Some r
+  | seg :: rest =>
+      let name := sg_name seg in
+      let rs := align_up r (align_z (segment_start_align seg)) in
+      exists o,
+        find_sec (alloc_name seg) (l_secs st') = Some o /\
+        os_lma o = Some rs /\ os_noload o = false /\ 0 <= os_size o /\
+        let re := align_up (rs + os_size o) (align_z (segment_end_align seg)) in
+        val st' (segment_rom_start sty name) = Some rs /\
+        val st' (segment_rom_end sty name) = Some re /\
+        val st' (segment_rom_size sty name) = Some (re - rs) /\
+        RomChain sty st' re rest
+  end.
+
+(* the names of all output sections of the emitted segments are pairwise different *)
+Definition out_names (segs : list segment) : list string :=
+  flat_map (fun seg => [alloc_name seg; noload_name seg]) segs.
